@@ -210,6 +210,7 @@ type OblSummary struct {
 	Status    string // unsat if all instances unsat
 	Solvers   map[string]int
 	Time      float64
+	MaxTime   float64 // slowest single query
 	Failed    []*Obligation
 }
 
@@ -230,6 +231,9 @@ func Summarize(results []*FuncResult) []*OblSummary {
 			}
 			sm.Instances++
 			sm.Time += o.Time
+			if o.Time > sm.MaxTime {
+				sm.MaxTime = o.Time
+			}
 			sm.Solvers[o.Solver]++
 			if o.Status == "known-finding" {
 				if sm.Status == "unsat" {
